@@ -37,7 +37,7 @@ def normalise(records: List[dict]) -> List[dict]:
 def observe(real: harness.RealOutcome) -> dict:
     from verif_lib.components import EMPTY_ERROR, THE_ERROR
 
-    return {"status": real.status, "data": real.data, "ctx": {k: (v if isinstance(v, (int, float, str, bool, type(None))) else repr(v)) for k, v in real.ctx.items()},
+    return {"status": real.status, "data": real.data, "ctx": {k: (v if isinstance(v, (int, float, str, bool, type(None))) else f"<{type(v).__name__}>" if hasattr(v, "__next__") else repr(v)) for k, v in real.ctx.items()},
             "error": real.error, "index": real.index,
             "is_original_error": (real.exc is THE_ERROR) if real.error == "ValueError" else (real.exc is EMPTY_ERROR) if real.error == "RuntimeError" else None,
             "message": str(real.exc) if real.exc is not None else None, "log": real.log, "files": sorted(real.files)}
@@ -72,6 +72,8 @@ def first_diff(a: Any, b: Any, path: str = "") -> str:
         return ""
     if a is b or (isinstance(a, float) and isinstance(b, float) and a != a and b != b):
         return ""
+    if hasattr(a, "__next__") and type(a) is type(b):
+        return ""  # two one-shot iterators made for the two runs: their identity is not an observation
     try:
         same = bool(a == b)
     except Exception:  # values whose == is element-wise or raises (numpy arrays, tripwire objects): compare what they show
@@ -95,7 +97,9 @@ def exotic_param_values() -> Dict[str, Any]:
     from verif_lib.components import Trip
 
     return {"mixedkeys": {1: "a", "b": 2}, "nonekey": {None: 1, "a": 2}, "nested-mixed": [{"a": {1: 2, "c": 3}}], "tuplekey": {(1, 2): 3},
-            "arr": np.array([1.0, 2.0]), "trip": Trip(), "nan": float("nan"), "set": {1, 2}, "bytes": b"x", "complex": 1j, "bigint": 10 ** 400}
+            "arr": np.array([1.0, 2.0]), "trip": Trip(), "nan": float("nan"), "set": {1, 2}, "bytes": b"x", "complex": 1j, "bigint": 10 ** 400,
+            # one-shot iterables: whoever iterates them first empties them — that must be the node, as in the untraced run
+            "iterator": iter([1.0, 2.0]), "generator": (float(i) for i in (3, 4)), "map": map(float, (5, 6))}
 
 
 def _worker_obs(chunk):
@@ -117,13 +121,21 @@ def _worker_obs(chunk):
                 k, name = ctx["__exoticparam__"]
                 ctx = {kk: v for kk, v in ctx.items() if kk != "__exoticparam__"}
                 ctx[k] = exotic_param_values()[name]
+            fresh = None
+            if any(hasattr(v, "__next__") for v in ctx.values()):
+                spec_k = next(k_ for k_, v in ctx.items() if hasattr(v, "__next__"))
+                spec_name = next(n_ for n_, v in exotic_param_values().items() if type(v) is type(ctx[spec_k]))
+
+                def fresh(ctx=ctx, spec_k=spec_k, spec_name=spec_name):  # noqa: E731 - a NEW one-shot object for every run
+                    return {**ctx, spec_k: exotic_param_values()[spec_name]}
+                ctx = fresh()
             try:
                 base = untraced(prog, dk, ctx, scratch)
             except Exception:
                 continue  # loader refuses
             out["outcomes"][f"{base['status']}:{base['error']}"] = out["outcomes"].get(f"{base['status']}:{base['error']}", 0) + 1
             for detail in details:
-                records, files, real, _, _ = traces.traced_single(prog, dk, ctx, detail=detail, mode="file", scratch=scratch)
+                records, files, real, _, _ = traces.traced_single(prog, dk, fresh() if fresh else ctx, detail=detail, mode="file", scratch=scratch)
                 tr = observe(real)
                 tr["files"] = base["files"]  # traced_single does not read sink files; the processor log covers sink calls
                 out["n"] += 1
@@ -133,7 +145,8 @@ def _worker_obs(chunk):
                 if first_diff(b2, tr):
                     out["viol"].append(("traced-run-differs-from-untraced",
                                         f"{list(prog)} ctx={ctx} detail={detail}: {first_diff(b2, tr)}",
-                                        {"kind": "obs", "prog": list(prog), "ctx": ctx, "detail": detail}))
+                                        {"kind": "obs", "prog": list(prog), "ctx": {k_: (v_ if not hasattr(v_, "__next__") else f"<{type(v_).__name__}>") for k_, v_ in ctx.items()},
+                                         "detail": detail}))
         from mc.props.c01 import _housekeeping
 
         _housekeeping()
